@@ -168,3 +168,193 @@ def check_c20(ctx):
 
 
 CHECKS = {'C20': check_c20}
+
+
+# ------------------------------------------------------------------------------------------
+# C08 — crash recovery from real memory images
+# ------------------------------------------------------------------------------------------
+import struct
+import checks_session as CS
+
+C08_THEOREMS = []
+
+
+def build_crash_harness():
+    src = os.path.join(VERIF, 'harness', 'crash_harness.cpp')
+    hh = file_hash([src] + repo_sources())
+    exe = os.path.join(BUILD, 'bin', 'crash_harness-%s' % hh)
+    if os.path.exists(exe):
+        return exe
+    os.makedirs(os.path.dirname(exe), exist_ok=True)
+    # no sanitizers: the child dumps every writable mapping, ASan's shadow memory would be terabytes
+    rc, out = sh(['g++', '-std=c++17', '-O1', '-g', '-UNDEBUG', '-D' + HOOK_GUARD, '-I' + os.path.join(REPO, 'include'), src, '-o', exe + '.tmp'])
+    if rc != 0:
+        raise BuildError('crash harness does not build:\n' + out[-3000:])
+    os.replace(exe + '.tmp', exe)
+    return exe
+
+
+def crash_script(rng):
+    base = CS.gen_session_script(rng, rotations=False)
+    ops = [o.strip() for o in base.split('|')][1:]
+    # the crash harness knows a subset of the ops; sources are registered often so that the metadata vector reallocates
+    keep = []
+    for o in ops:
+        t = o.split(' ')
+        if t[0] in ('cw', 'src', 'log', 'dw', 'cs', 'consume', 'sname'):
+            keep.append(o)
+        if t[0] == 'log' and rng.random() < 0.3:
+            keep.append('src 128 %s %s 662e637070 %d 6d207b7d 49' % (G.rand_bytes(rng, 20, b'catego').hex() or '-', G.rand_bytes(rng, 30, b'function_').hex() or '-', rng.randrange(99)))
+    return keep
+
+
+def run_crash(exe, brec, ops, point, k, workdir, tag):
+    dump = os.path.join(workdir, 'core-%s' % tag)
+    line = 'crash %s %d | ' % (point, k) + ' | '.join(ops)
+    e = dict(os.environ); e['VERIF_DUMP'] = dump
+    p = subprocess.run([exe], input=(line + '\n').encode(), stdout=subprocess.PIPE, stderr=subprocess.PIPE, env=e, timeout=120)
+    out = p.stdout.decode()
+    res = {'line': line, 'stdout': out.strip()[-400:]}
+    if 'CRASHED' not in out:
+        res['status'] = 'nocrash'
+        return res
+    kv = parse_kv([l for l in out.split('\n') if l.startswith('CRASHED')][0])
+    completed = [tuple(int(x) for x in c.split(':')) for c in kv.get('completed', '').split(',') if c]
+    consumed = open(dump + '.out', 'rb').read() if os.path.exists(dump + '.out') else b''
+    e2 = dict(os.environ); e2['ASAN_OPTIONS'] = 'detect_leaks=0'
+    q = subprocess.run([brec, dump, '-'], stdout=subprocess.PIPE, stderr=subprocess.PIPE, env=e2, timeout=300)
+    for f in (dump, dump + '.out'):
+        if os.path.exists(f):
+            os.remove(f)
+    res.update({'status': 'crashed', 'completed': completed, 'consumed': consumed, 'recovered': q.stdout, 'brecovery_rc': q.returncode,
+                'brecovery_err': q.stderr.decode('latin1')[-300:], 'brecovery_log': q.stderr.decode('latin1')})
+    return res
+
+
+def analyse_crash(res, attempted):
+    """the C08 monitor on one real image"""
+    if res['brecovery_rc'] != 0:
+        return 'brecovery exited with %d: %s' % (res['brecovery_rc'], res['brecovery_err'])
+    rec = CS.parse_entries(res['recovered'])
+    if rec is None:
+        return 'the recovered log is not a sequence of whole entries'
+    cons = CS.parse_entries(res['consumed'])
+    if cons is None:
+        return 'the consumed output is not a sequence of whole entries'
+    def events(ps):
+        out = []
+        for p in ps:
+            tg = CS.tag_of(p)
+            if tg is not None and tg < (1 << 63) and len(p) >= 24:
+                out.append((tg,) + struct.unpack('<II', p[16:24]))
+        return out
+    rec_ev, cons_ev = events(rec), events(cons)
+    have = set((w, s) for _, w, s in rec_ev) | set((w, s) for _, w, s in cons_ev)
+    for c in res['completed']:
+        if c not in have:
+            return 'event (writer %d, seq %d) whose log call had completed is neither in the output so far nor in the recovered log' % c
+    # printable: source and clock sync precede each event within the recovered log
+    defined, seen_cs = set(), False
+    for p in rec:
+        tg = CS.tag_of(p)
+        if tg == CS.TAG_CS:
+            seen_cs = True
+        elif tg == CS.TAG_SOURCE:
+            defined.add(int.from_bytes(p[8:16], 'little'))
+        elif tg is not None and tg < (1 << 63):
+            if tg not in defined:
+                return 'recovered event of source id %d is not printable: its event source is not in the recovered log' % tg
+            if not seen_cs:
+                return 'recovered event is not printable: no clock sync in the recovered log'
+    # nothing uncommitted / torn
+    for tg, w, s in rec_ev:
+        if (w, s) not in attempted:
+            return 'recovered an event (writer %d, seq %d) that was never logged (torn or uncommitted data)' % (w, s)
+    # events recovered from ONE queue keep their order: split the output into the buffers brecovery wrote (its own log)
+    import re as _re
+    for m in _re.finditer(r'Write (\d+) bytes of recovered Data to output at offset (\d+)', res.get('brecovery_log', '')):
+        n, off = int(m.group(1)), int(m.group(2))
+        seg = CS.parse_entries(res['recovered'][off:off + n]) or []
+        last = {}
+        for tg, w, s in events(seg):
+            if w in last and s <= last[w]:
+                return 'events recovered from one queue (writer %d) are out of order' % w
+            last[w] = s
+    return None
+
+
+def check_c08(ctx):
+    ok = proof_step(ctx, 'BinlogVerif.Props.C20', C08_THEOREMS) if not C08_THEOREMS else proof_step(ctx, 'BinlogVerif.Props.C08', C08_THEOREMS)
+    exe = build_crash_harness()
+    brec = build_brecovery()
+    rng = random.Random(ctx.seed * 1000003 + 8)
+    nscripts = cases_count(ctx, 6, 60)
+    per_point = cases_count(ctx, 6, 40)
+    workdir = os.path.join(BUILD, 'c08-%d' % os.getpid())
+    os.makedirs(workdir, exist_ok=True)
+    jobs = []
+    for si in range(nscripts):
+        ops = crash_script(rng)
+        attempted = set()
+        for o in ops:
+            t = o.split(' ')
+            if t[0] == 'log':
+                attempted.add(struct.unpack('<II', bytes.fromhex(t[4])[:8]))
+        # hit counts of every point for this script
+        p = subprocess.run([exe], input=('crash none 0 | ' + ' | '.join(ops) + '\n').encode(), stdout=subprocess.PIPE, stderr=subprocess.PIPE,
+                           env=dict(os.environ, VERIF_DUMP=os.path.join(workdir, 'unused')), timeout=120)
+        hits = {}
+        for kv in p.stdout.decode().split('hits=')[-1].strip().split(','):
+            if ':' in kv:
+                a, b = kv.split(':'); hits[a] = int(b)
+        for point, n in sorted(hits.items()):
+            ks = list(range(1, n + 1))
+            if len(ks) > per_point:
+                ks = sorted(rng.sample(ks, per_point))
+            for k in ks:
+                jobs.append((si, ops, attempted, point, k))
+    def one(j):
+        si, ops, attempted, point, k = j
+        res = run_crash(exe, brec, ops, point, k, workdir, '%d-%s-%d' % (si, point, k))
+        what = analyse_crash(res, attempted) if res['status'] == 'crashed' else None
+        return j, res, what
+    with ThreadPoolExecutor(max_workers=12) as ex:
+        results = list(ex.map(one, jobs))
+    try:
+        os.rmdir(workdir)
+    except OSError:
+        pass
+    by_point, prop_fail, nontrivial = {}, set(), set()
+    for (si, ops, attempted, point, k), res, what in results:
+        st = by_point.setdefault(point, {'images': 0, 'violations': 0, 'with_recovered_events': 0})
+        if res['status'] != 'crashed':
+            continue
+        st['images'] += 1
+        if res['recovered']:
+            nontrivial.add((si, point, k))
+        if b'' != res['recovered'] and any(CS.tag_of(p) is not None and CS.tag_of(p) < (1 << 63) for p in (CS.parse_entries(res['recovered']) or [])):
+            st['with_recovered_events'] += 1
+        if what:
+            st['violations'] += 1
+            prop_fail.add((si, point, k))
+            key = 'metadata-realloc-window' if point in ('meta-magic-cleared', 'meta-inserted') and 'event source is not in the recovered log' in what else \
+                'crash-%s-%s' % (point, hashlib.sha256(res['line'].encode()).hexdigest()[:8])
+            ctx.violation(key, 'C08: from the memory image taken at crash point %s (hit %d): %s' % (point, k, what),
+                          {'kind': 'crash_point', 'script': res['line'], 'point': point, 'hit': k, 'completed': res['completed'],
+                           'recovered_hex': res['recovered'].hex()[:4000], 'consumed_bytes': len(res['consumed']),
+                           'replay': 'echo "<script>" | VERIF_DUMP=/tmp/core build/bin/crash_harness-* && build/bin/brecovery-* /tmp/core -'})
+    ctx.streams['crash_images'] = by_point
+    finish_proof(ctx, ok, bool(prop_fail))
+    total = sum(s['images'] for s in by_point.values())
+    ctx.coverage.update({'evaluations': total, 'distinct_nontrivial': len(nontrivial), 'traces_validated_against_impl': total - len(prop_fail),
+                         'rule': 'session scripts (several writers, small queues forcing wrap and replacement, frequent source registration '
+                                 'so that the metadata vectors reallocate, consumes, destroys) run on the real library; at every hook point between '
+                                 'two memory writes (queue bytes/commit/wrap/release, metadata magic-clear/insert/magic-set/size-update, channel '
+                                 'construction/destruction steps, consume writes, operation boundaries; all hits or a sample per point) the process '
+                                 'forks and dumps all writable mappings; the real brecovery runs on the dump and the monitor checks completeness, '
+                                 'printability, no torn/uncommitted event, per-writer order; non-trivial = something was recovered'})
+    ctx.samples = [results[0][1]['line'][:300]] if results else ['(none)']
+    return ctx.finish('fault_enumeration' if not C08_THEOREMS else 'proof')
+
+
+CHECKS['C08'] = check_c08
